@@ -78,11 +78,14 @@ func newLexer(env *ExecEnv, r io.RuneScanner) *lexer {
 		token:  make(chan interface{}),
 		cancel: make(chan struct{}),
 	}
+	verifPoint(l, EvStart)
 	go l.run()
 	return l
 }
 
 func (l *lexer) Lex(lval *yySymType) int {
+	verifPoint(l, EvRecvBefore)
+	defer verifPoint(l, EvRecvAfter)
 	switch tok := (<-l.token).(type) {
 	case token:
 		lval.expr.s = tok.val
@@ -95,6 +98,7 @@ func (l *lexer) Lex(lval *yySymType) int {
 }
 
 func (l *lexer) run() {
+	defer verifPoint(l, EvExit)
 	defer func() {
 		close(l.token)
 
@@ -348,15 +352,19 @@ func (l *lexer) emit(typ int) {
 	default:
 		tok = typ
 	}
+	verifPoint(l, EvSendBefore)
 	select {
 	case l.token <- tok:
 	case <-l.cancel:
 		// bailout
+		verifPoint(l, EvBail)
 		panic(nil)
 	}
+	verifPoint(l, EvSendAfter)
 }
 
 func (l *lexer) read() (rune, error) {
+	verifPoint(l, EvRead)
 	r, _, err := l.r.ReadRune()
 	return r, err
 }
@@ -366,6 +374,7 @@ func (l *lexer) unread() {
 }
 
 func (l *lexer) Error(s string) {
+	verifPoint(l, EvErrWrite)
 	l.mu.Lock()
 	defer l.mu.Unlock()
 
